@@ -39,14 +39,53 @@ inductive PComp where
   | extra (tag val : String)             -- any line this model does not know
 deriving DecidableEq, Repr
 
+/-! ### named inputs
+
+The analysis and the key are functions of *named* inputs.  A `Named` is an assignment of
+values to names (the fields of the merged `config.Config`, the variables of the process
+environment); `restrict names m` is what a reader that looks only at `names` can see of it.
+Which names the key hashes and which names the analyzers read is the *shape* of the code
+(`Shape`); it is extracted from the current source and from the run-time HASH lines into
+`Verif/C04/Generated.lean`, and the only thing the transparency theorem needs from it is the
+structural obligation `Shape.Covers` (every name read is hashed). -/
+
+abbrev Named := List (String × String)
+abbrev NVals := List (String × Option String)
+
+def find [DecidableEq α] (k : α) : List (α × β) → Option β
+  | [] => none
+  | (k', v) :: rest => if k' = k then some v else find k rest
+
+/-- The values of the given names (`none` = not set / zero value). -/
+def restrict (names : List String) (m : Named) : NVals := names.map (fun n => (n, find n m))
+
+/-- Which named inputs reach the action key and which are read at analysis time. -/
+structure Shape where
+  /-- fields of `config.Config` whose value reaches the `cfg %#v` component of `subrunner.do`
+  (`hashCfg := a.cfg; hashCfg.Checks = nil` ⇒ every field but `Checks`) -/
+  cfgHashed : List String
+  /-- fields some analyzer reads through `config.For(pass).F` -/
+  cfgReads : List String
+  /-- environment variables written into the key (`env godebug %q`) -/
+  envHashed : List String
+  /-- environment variables read by analysis-time code -/
+  envReads : List String
+deriving DecidableEq, Repr
+
+/-- The structural obligation: every named input the analysis reads is determined by the key. -/
+def Shape.Covers (S : Shape) : Prop :=
+  (∀ f ∈ S.cfgReads, f ∈ S.cfgHashed) ∧ (∀ e ∈ S.envReads, e ∈ S.envHashed)
+
+instance (S : Shape) : Decidable S.Covers := by unfold Shape.Covers; infer_instance
+
 /-- One `Write` of `subrunner.do` (lintcmd/runner/runner.go). -/
 inductive KComp (PD VD : Type) where
   | salt (s : String)                    -- `h.Write(hashSalt)` in cache.NewHash
-  | cfg (s : String)                     -- "cfg %#v\n" of the merged config with Checks = nil
+  | cfg (c : NVals)                      -- "cfg %#v\n" of hashCfg: the hashed fields of the merged config
   | pkg (d : PD)                         -- "pkg %x\n"  (a.Package.Hash)
   | analyzers (s : String)               -- "analyzers %s\n"
   | go (s : String)                      -- "go %s\n"
-  | godebug (s : String)                 -- "env godebug %q\n"
+  | env (e : NVals)                      -- "env godebug %q\n": the hashed environment variables
   | vetout (path : String) (d : VD)      -- "vetout %q %x\n" per dependency, sorted by package ID
   | extra (tag val : String)
 deriving DecidableEq, Repr
@@ -57,7 +96,7 @@ def PComp.tag : PComp → String
 
 def KComp.tag {PD VD : Type} : KComp PD VD → String
   | .salt _ => "salt" | .cfg _ => "cfg" | .pkg _ => "pkg" | .analyzers _ => "analyzers"
-  | .go _ => "go" | .godebug _ => "env" | .vetout _ _ => "vetout" | .extra _ _ => "extra"
+  | .go _ => "go" | .env _ => "env" | .vetout _ _ => "vetout" | .extra _ _ => "extra"
 
 /-! ### inputs -/
 
@@ -76,11 +115,11 @@ facts of a dependency are given: `Inputs PkgSrc Vetx` is what the analysis consu
 `Inputs PD VD` is what is written into the action hash. -/
 structure Inputs (P V : Type) where
   salt : String
-  cfg : String                           -- merged config minus Checks
+  cfg : NVals                            -- the visible part of the merged config
   pkg : P
   analyzers : String
   goVersion : String
-  godebug : String
+  env : NVals                            -- the visible part of the environment
   depVetx : List (String × V)
   extra : List (String × String)
 
@@ -110,7 +149,7 @@ def serialisePkg (salt : String) (p : PkgSrc) : List PComp :=
     ++ (p.files.map .files ++ (p.extra.map (fun x => .extra x.1 x.2) ++ p.imports.map (fun x => .imp x.1 x.2)))
 
 def serialise {PD VD : Type} (k : Inputs PD VD) : List (KComp PD VD) :=
-  [.salt k.salt, .cfg k.cfg, .pkg k.pkg, .analyzers k.analyzers, .go k.goVersion, .godebug k.godebug]
+  [.salt k.salt, .cfg k.cfg, .pkg k.pkg, .analyzers k.analyzers, .go k.goVersion, .env k.env]
     ++ (k.extra.map (fun x => .extra x.1 x.2) ++ k.depVetx.map (fun x => .vetout x.1 x.2))
 
 variable {PD VD D : Type}
@@ -119,7 +158,7 @@ variable {PD VD D : Type}
 dependencies by their content hashes. -/
 def toKey (P : Params PD VD D) (a : AInputs) : Inputs PD VD :=
   { salt := a.salt, cfg := a.cfg, pkg := P.Hp (serialisePkg a.salt a.pkg), analyzers := a.analyzers,
-    goVersion := a.goVersion, godebug := a.godebug,
+    goVersion := a.goVersion, env := a.env,
     depVetx := a.depVetx.map (fun x => (x.1, P.vhash x.2)), extra := a.extra }
 
 /-- `a.hash` of `subrunner.do`. -/
@@ -134,7 +173,7 @@ def requiredPkgTags : List String := ["salt", "goos", "import-self", "files", "i
 /-- One package of the import graph as the loader + planner present it. -/
 structure Pkg where
   src : PkgSrc
-  cfg : String                           -- merged config, `Checks` removed
+  cfg : Named                            -- merged config as named fields (`Checks` is kept apart)
   checks : List String                   -- merged `Checks` (never part of the key)
   initial : Bool                         -- `!factsOnly`
   deps : List Nat                        -- positions of the direct dependencies in `World.pkgs`
@@ -147,7 +186,7 @@ structure World where
   salt : String
   analyzers : String
   goVersion : String
-  godebug : String
+  env : Named                            -- the process environment
   pkgs : List Pkg
 deriving DecidableEq, Repr
 
@@ -156,10 +195,6 @@ inductive Out where
   | failed (errs : List String)          -- `a.failed`; `errs = []` when only a dependency failed
   | ok (vetx : Vetx) (results : Option Results)   -- `results = none` for facts-only actions
 deriving DecidableEq, Repr
-
-def find [DecidableEq α] (k : α) : List (α × β) → Option β
-  | [] => none
-  | (k', v) :: rest => if k' = k then some v else find k rest
 
 /-- The on-disk cache restricted to what the runner stores: `Subkey(id,"vetx")` and
 `Subkey(id,"results")`. Newest entry first; `Put` overwrites = shadows. -/
@@ -181,9 +216,19 @@ def depVetx (done : List (Pkg × Out)) : List Nat → Option (List (String × Ve
       | none => none
     | _ => none
 
-def mkInputs (w : World) (p : Pkg) (dv : List (String × Vetx)) : AInputs :=
-  { salt := w.salt, cfg := p.cfg, pkg := p.src, analyzers := w.analyzers, goVersion := w.goVersion,
-    godebug := w.godebug, depVetx := dv, extra := p.extra }
+/-- The inputs of a package action as seen by a reader that looks at the configuration fields
+`cn` and the environment variables `en` only. -/
+def mkInputs (cn en : List String) (w : World) (p : Pkg) (dv : List (String × Vetx)) : AInputs :=
+  { salt := w.salt, cfg := restrict cn p.cfg, pkg := p.src, analyzers := w.analyzers, goVersion := w.goVersion,
+    env := restrict en w.env, depVetx := dv, extra := p.extra }
+
+/-- What `doUncached` (the analyzers) can see. -/
+def ainOf (S : Shape) (w : World) (p : Pkg) (dv : List (String × Vetx)) : AInputs :=
+  mkInputs S.cfgReads S.envReads w p dv
+
+/-- `a.hash` of `subrunner.do` for this package in this world. -/
+def keyOf (S : Shape) (P : Params PD VD D) (w : World) (p : Pkg) (dv : List (String × Vetx)) : D :=
+  key P (mkInputs S.cfgHashed S.envHashed w p dv)
 
 /-- `getCachedFiles`: all requested sub-entries must be present. -/
 def lookupAll [DecidableEq D] (c : Cache D) (k : D) (initial : Bool) : Option Out :=
@@ -197,13 +242,13 @@ def lookupAll [DecidableEq D] (c : Cache D) (k : D) (initial : Bool) : Option Ou
     else some (.ok v none)
 
 /-- `subrunner.do` for one package: returns the new cache, the next nonce and the result. -/
-def doPkg [DecidableEq D] (P : Params PD VD D) (w : World) (c : Cache D) (n : Nat)
+def doPkg [DecidableEq D] (S : Shape) (P : Params PD VD D) (w : World) (c : Cache D) (n : Nat)
     (done : List (Pkg × Out)) (p : Pkg) : Cache D × Nat × Out :=
   match depVetx done p.deps with
   | none => (c, n, .failed [])
   | some dv =>
-    let ai := mkInputs w p dv
-    let k := key P ai
+    let ai := ainOf S w p dv
+    let k := keyOf S P w p dv
     match lookupAll c k p.initial with
     | some o => (c, n, o)
     | none =>
@@ -213,17 +258,17 @@ def doPkg [DecidableEq D] (P : Params PD VD D) (w : World) (c : Cache D) (n : Na
         if p.initial then (⟨(k, v) :: c.vet, (k, r) :: c.res⟩, n + 1, .ok v (some r))
         else (⟨(k, v) :: c.vet, c.res⟩, n + 1, .ok v none)
 
-def runPkgs [DecidableEq D] (P : Params PD VD D) (w : World) :
+def runPkgs [DecidableEq D] (S : Shape) (P : Params PD VD D) (w : World) :
     Cache D → Nat → List (Pkg × Out) → List Pkg → Cache D × Nat × List (Pkg × Out)
   | c, n, done, [] => (c, n, done)
   | c, n, done, p :: ps =>
-    let r := doPkg P w c n done p
-    runPkgs P w r.1 r.2.1 (done ++ [(p, r.2.2)]) ps
+    let r := doPkg S P w c n done p
+    runPkgs S P w r.1 r.2.1 (done ++ [(p, r.2.2)]) ps
 
 /-- One invocation: process the graph bottom-up. -/
-def run [DecidableEq D] (P : Params PD VD D) (c : Cache D) (n : Nat) (w : World) :
+def run [DecidableEq D] (S : Shape) (P : Params PD VD D) (c : Cache D) (n : Nat) (w : World) :
     Cache D × Nat × List (Pkg × Out) :=
-  runPkgs P w c n [] w.pkgs
+  runPkgs S P w c n [] w.pkgs
 
 /-- `linter.lint`: failed packages report their errors; initial packages report the loaded
 results filtered by the *current* merged `Checks` (`sel checks check`). -/
@@ -235,13 +280,25 @@ def reportOne (sel : List String → String → Bool) : Pkg × Out → Results
 def report (sel : List String → String → Bool) (outs : List (Pkg × Out)) : Results :=
   outs.flatMap (reportOne sel)
 
+/-- What `linter.lint` can see of a package action: the errors of a failed package, or the
+loaded `results` entry (diagnostics, directives, unused objects) — never the facts file and
+never the cache. -/
+inductive Loaded where
+  | failed (errs : List String)
+  | ok (results : Option Results)
+deriving DecidableEq, Repr
+
+def strip : Pkg × Out → Pkg × Loaded
+  | (p, .failed e) => (p, .failed e)
+  | (p, .ok _ r) => (p, .ok r)
+
 /-- The cache (and nonce) after a history of invocations on arbitrary worlds, starting empty.
 Source edits, configuration edits, flag and environment changes are just different worlds. -/
-def cacheAfter [DecidableEq D] (P : Params PD VD D) : List World → Cache D × Nat
+def cacheAfter [DecidableEq D] (S : Shape) (P : Params PD VD D) : List World → Cache D × Nat
   | [] => (Cache.empty, 0)
   | w :: ws =>
-    let s := cacheAfter P ws
-    let r := run P s.1 s.2 w
+    let s := cacheAfter S P ws
+    let r := run S P s.1 s.2 w
     (r.1, r.2.1)
 
 end Verif.C04
